@@ -337,7 +337,9 @@ func SiteDiags(p *Prog, diags []engine.Diag, prefixes ...string) (bySite map[int
 			files[pkg.Dir+"/"+f.Name] = f
 		}
 	}
-	seen := map[string]bool{}
+	// the same diagnostic reported for several variants of a package (p and p [p.test])
+	// counts once; the same diagnostic reported twice within one variant counts twice
+	diags = engine.CollapseVariants(diags)
 	for _, d := range diags {
 		ok := len(prefixes) == 0
 		for _, pre := range prefixes {
@@ -348,11 +350,6 @@ func SiteDiags(p *Prog, diags []engine.Diag, prefixes ...string) (bySite map[int
 		if !ok {
 			continue
 		}
-		uk := fmt.Sprintf("%s:%d:%d:%s:%s", d.File, d.Line, d.Col, d.Code, d.Message)
-		if seen[uk] {
-			continue
-		}
-		seen[uk] = true
 		f := files[d.File]
 		id := 0
 		if f != nil {
